@@ -40,6 +40,22 @@ def _stores(prog, keys, recs):
     return out
 
 
+_PD = {}
+
+
+def _uncond(fn, n):
+    """Is the store executed on every path through its function (its block post-dominates the entry)?"""
+    from nk.cfg import dominators
+    if not fn.blocks:
+        return True
+    if fn.key not in _PD:
+        _PD[fn.key] = dominators(fn, post=True)
+    w = fn.block_of(n)
+    if w is None:
+        return True
+    return w[0] == fn.entry or w[0] in _PD[fn.key].get(fn.entry, ())
+
+
 def rpass(prog, cg):
     """R-PASS: every AsmContext/Memory/Symbols/Tokens/Macros field stored while assembling is either re-initialised
     by AsmContext::init() (and its callees) before pass 2 or on the frozen allowed-carry list."""
@@ -53,7 +69,13 @@ def rpass(prog, cg):
     for key in sorted(W):
         fn, n = W[key][0]
         name = '%s::%s' % key
-        if key in R:
+        if key in R and not any(_uncond(f2, n2) for f2, n2 in R[key]):
+            f2, n2 = R[key][0]
+            obs.append(Ob('R-PASS', f2.file, n2['l'], f2.q, name, VIOLATED,
+                          '%s is written while assembling (%s:%d) and the only stores that reset it for pass 2 (%s, line %d) are '
+                          'conditional: on the other path pass 2 starts with the value pass 1 ended with' % (
+                              name, fn.file, n['l'], f2.q, n2['l'])))
+        elif key in R:
             obs.append(Ob('R-PASS', fn.file, n['l'], fn.q, name, DISCHARGED, '', 're-initialised by init() at %s:%d' % (
                 R[key][0][0].file, R[key][0][1]['l']), False))
         elif key in ALLOWED_CARRY:
@@ -429,6 +451,36 @@ def string_loop(prog):
                           '' if ok else 'the character loop `%s` can be left from inside its body (block %d): the rest of the string after that '
                           'point is not emitted, later data and labels move down' % (show(own), exits[0][0]),
                           'left only through its end-of-string test', False))
-    if not obs:
-        raise AnalysisBroken('STR-ALL: no emitting string loop in core/directives_data.cpp')
-    return RuleResult('STR-ALL', obs, 1, {})
+    # .asciiz: the terminator belongs to each string operand: the emission guarded by the null-termination flag lies inside
+    # the operand loop (the loop that contains the character loop), not behind it
+    nz = 0
+    for fn in sorted(prog.fns.values(), key=lambda f: (f.file, f.line)):
+        if not fn.blocks or fn.file != 'core/directives_data.cpp':
+            continue
+        flags = [p for p in fn.params() if 'null' in (p.get('n') or '')]
+        if not flags:
+            continue
+        loops = natural_loops(fn)
+        charloops = [body for h, body in loops.items()
+                     if any(callee(fn.nodes[e]) in ('AsmContext::memory_write_inc', 'add_bin8') for b in body for e in fn.blocks[b]['e']
+                            if fn.nodes.get(e) is not None and fn.nodes[e]['k'] in ('CallExpr', 'CXXMemberCallExpr'))]
+        for c in fn.calls():
+            if callee(c) not in ('AsmContext::memory_write_inc', 'add_bin8') or const(call_args(c)[0] if callee(c) != 'add_bin8' else call_args(c)[1]) != 0:
+                continue
+            guarded = False
+            prev = c
+            for anc in fn.ancestors(c):
+                if anc['k'] == 'IfStmt' and any(x['k'] == 'DeclRefExpr' and x.get('d') == flags[0]['d'] for x in walk(kids(anc)[0])):
+                    guarded = True
+                prev = anc
+            if not guarded:
+                continue
+            nz += 1
+            w = fn.block_of(c)
+            inloop = w is not None and any(w[0] in body for body in charloops)
+            obs.append(Ob('STR-ALL', fn.file, c['l'], fn.q, 'terminator#%d' % nz, DISCHARGED if inloop else VIOLATED,
+                          '' if inloop else 'the terminating zero of .asciiz is emitted outside the loop over the operands: with several '
+                          'strings only the last one is terminated and every later label moves down', 'emitted once per operand', False))
+    if not obs or nz == 0:
+        raise AnalysisBroken('STR-ALL: no emitting string loop / no .asciiz terminator in core/directives_data.cpp')
+    return RuleResult('STR-ALL', obs, 2, {})
